@@ -384,7 +384,10 @@ func (t *taintState) loadTainted(addr ssa.Value) bool {
 	return false
 }
 
-var untaintedExternal = map[string]bool{"crypto/rand.Read": true, "io.ReadFull": true, "io.ReadAtLeast": true}
+// foreign functions whose result is not secret material: the CSPRNG read's
+// (n, err), and pure counts (the property admits counts in diagnostics, like len)
+var untaintedExternal = map[string]bool{"crypto/rand.Read": true, "io.ReadFull": true, "io.ReadAtLeast": true,
+	"unicode/utf8.RuneCountInString": true, "unicode/utf8.RuneCount": true, "strings.Count": true}
 
 func computeTaint(p *core.Program) *taintState {
 	t := &taintState{p: p, val: map[ssa.Value]bool{}, allocC: map[*ssa.Alloc]map[string]bool{}, typeC: map[string]bool{},
